@@ -1,6 +1,7 @@
 # Shared machinery for /verif/check: translate -> prove -> extract -> build harness -> correspond -> verdict -> evidence.
 import os, sys, re, json, time, subprocess, hashlib, random, shutil, fcntl
 
+sys.set_int_max_str_digits(0)      # big-integer cases (1000 moduli) exceed Python's default 4300-digit conversion limit
 ROOT = os.path.dirname(os.path.dirname(os.path.abspath(__file__)))
 REPO = os.environ.get("VERIF_REPO", "/repo")
 # VERIF_WORK (optional): a private copy of the mutable state (Coq objects, build products, evidence, replays), so that
